@@ -15,7 +15,7 @@ FAULT = {"oauth": "F_oauth", "get_backend": "F_get_backend", "get_tracker": "F_g
          "put_activity": "F_put_activity", "put_backend": "F_put_backend", "query_backend": "F_query_backend", "mc_get": "F_mc_get", "mc_set": "F_mc_set"}
 
 
-def run(ctx, histories, ops, with_timeout, name="ae.jsonl", faultp=0.25, bigp=0.12):
+def run(ctx, histories, ops, with_timeout, name="ae.jsonl", faultp=0.25, bigp=0.12, with_late=False):
     ok, out, dt_b = C.build_repo_binary("app", os.path.join(ctx.work, "app.bin"))
     if not ok:
         raise RuntimeError("the App Engine app does not build: " + out[-1500:])
@@ -23,21 +23,24 @@ def run(ctx, histories, ops, with_timeout, name="ae.jsonl", faultp=0.25, bigp=0.
     p = os.path.join(ctx.work, name)
     rc, out, dt = C.run([os.path.join(C.BIN, "appengine"), "-app", os.path.join(ctx.work, "app.bin"), "-repo", C.REPO, "-out", p, "-seed", str(ctx.seed),
                          "-histories", str(histories), "-ops", str(ops), "-faultp", str(faultp), "-bigp", str(bigp),
-                         "-timeout504=%s" % ("true" if with_timeout else "false")], cwd=ctx.work, timeout=3000)
+                         "-timeout504=%s" % ("true" if with_timeout else "false"), "-late=%s" % ("true" if with_late else "false")], cwd=ctx.work, timeout=3000)
     rows = C.read_jsonl(p)
     if rc != 0 or not rows or rows[-1].get("kind") != "done":
         raise RuntimeError("App Engine harness did not run to completion: rc=%s\n%s" % (rc, out[-2000:]))
     hists = collections.defaultdict(list)
     timeout = None
+    late = None
     conc = []
     for r in rows:
+        if r["kind"] == "late-response":
+            late = r
         if r["kind"] == "op":
             hists[r["h"]].append(r)
         elif r["kind"] == "timeout504":
             timeout = r
         elif r["kind"] == "conc":
             conc.append(r)
-    return {"histories": [hists[k] for k in sorted(hists)], "timeout": timeout, "conc": conc, "wall_s": dt}
+    return {"histories": [hists[k] for k in sorted(hists)], "timeout": timeout, "conc": conc, "wall_s": dt, "late": late}
 
 
 def oracle_conc(rows):
@@ -313,6 +316,8 @@ def oracle_c17(h):
             st = obs["status"]
             owner = obs.get("owner")
             authorised = bool(op["ident"]) and op["ident"] == owner and not (set(op.get("faults") or []) & AUTH_FAULTS)
+            if kind != "alist" and "+k" in str(op.get("req")) and st == 200:
+                res.append(("made-up-request-id-accepted:" + kind, "%s by the agent of backend %r under a request ID it made up (%s) was answered 200: it reaches a request stored for another backend" % (kind, op["backend"], op["req"]), _base(h, row)))
             rid = calls.get(op.get("req"), "") if kind != "alist" else ""
             if not authorised:
                 if st != 401:
@@ -433,6 +438,16 @@ def oracle_c19(h):
             if k in completed:
                 res.append(("response-lost-before-delivery", "the agent's response for call %d was accepted (200, operation %d) but is gone before the waiting client could read it" % (k, completed[k]), _base(h, row)))
     return res
+
+
+def oracle_late(l):
+    if l is None:
+        return []
+    if l.get("err") or l.get("agent_status") != 200 or l.get("client_status") != 200 or not l.get("client_got_the_response"):
+        return [("late-response-not-delivered", "a response posted by the authorised agent %.1f s after the request (the client waits 30 s) was answered %s to the agent; the client got %s after %s s (%s)" % (
+            l.get("posted_after_s", -1), l.get("agent_status"), l.get("client_status"), l.get("client_seconds"), l.get("err") or ("the posted response" if l.get("client_got_the_response") else "not the posted response")),
+            {"scenario": "late-response", "observed": l})]
+    return []
 
 
 def oracle_timeout(t):
